@@ -144,8 +144,8 @@ def prefix_chooser(prefix):
 
 # ---- single_thread_prefetch ---------------------------------------------------
 
-def run_stp(cfg, choose):
-    ctl = detsched.Controlled(choose)
+def run_stp(cfg, choose, pu_lines=False):
+    ctl = detsched.Controlled(choose, pu_lines=pu_lines)
     with ctl as sched:
         sched.item_code = code
         src = Src(sched, cfg['n'], cfg['fail_at'], cfg['fail_cls'], cfg.get('fiter', 0))
@@ -249,10 +249,10 @@ class FnError(Exception):
     pass
 
 
-def run_lpm(cfg, choose):
+def run_lpm(cfg, choose, pu_lines=False):
     """cfg additionally: w (max_workers), fn_fail (sorted list of items on
     which the mapped function raises)."""
-    ctl = detsched.Controlled(choose)
+    ctl = detsched.Controlled(choose, pu_lines=pu_lines)
     with ctl as sched:
         sched.item_code = code
         src = Src(sched, cfg['n'], cfg['fail_at'], cfg['fail_cls'])
@@ -353,12 +353,12 @@ def _fail_exc(kind):
     return FilterException if kind == 'filter' else OtherError
 
 
-def run_ds(cfg, choose):
+def run_ds(cfg, choose, pu_lines=False):
     """cfg: api 'prefetch' | 'parmap', n, buf, w, fn_fail [items], fail_kind
     'filter' | 'other', cfe 0/1 (catch_filter_exception=True), stop, stop_k.
     The mapped function is instrumented (call / ret are scheduling points)."""
     import lazy_dataset
-    ctl = detsched.Controlled(choose)
+    ctl = detsched.Controlled(choose, pu_lines=pu_lines)
     with ctl as sched:
         sched.item_code = code
         fn_fail = set(cfg['fn_fail'])
@@ -445,7 +445,7 @@ def ds_configs(max_n, ws, bufs):
     return out
 
 
-def run_shared(cfg, choose):
+def run_shared(cfg, choose, pu_lines=True):
     """Dataset level, the pool workers index a STRUCTURED pipeline (cfg['prog'],
     an API term of the pipeline family) that they share: every source line of
     lazy_dataset/core.py is a scheduling point.  cfg['seq'] (what the plain
@@ -497,7 +497,7 @@ def run_shared(cfg, choose):
             break
         seq.append(codes[j])
     cfg = dict(cfg, n=len(plain), fn_fail=fn_fail, fail_kind=kind, cfe=cfe)
-    ctl = detsched.Controlled(choose, line_files=(core.__file__,))
+    ctl = detsched.Controlled(choose, line_files=(core.__file__,), pu_lines=pu_lines)
     with ctl as sched, warnings.catch_warnings():
         warnings.simplefilter('ignore')
         sched.item_code = lambda item: -1
